@@ -9,4 +9,6 @@ pub mod util;
 #[cfg(kani)]
 mod c32;
 #[cfg(kani)]
+mod c33m;
+#[cfg(kani)]
 mod probe;
